@@ -81,7 +81,7 @@ macro_rules! ensure {
 }
 
 pub trait Property: Send + Sync + 'static {
-    type Case: Clone + Debug + Serialize + DeserializeOwned + Send + 'static;
+    type Case: Clone + Debug + Serialize + DeserializeOwned + Send + Sync + 'static;
     fn id(&self) -> &'static str;
     fn level(&self) -> &'static str {
         "exploration"
@@ -93,6 +93,12 @@ pub trait Property: Send + Sync + 'static {
     fn cases(&self, tier: Tier) -> usize;
     fn strategy(&self, tier: Tier) -> BoxedStrategy<Self::Case>;
     fn check(&self, case: &Self::Case) -> Check;
+    /// size of the dedicated rayon pool the whole check of this case runs in (parallel flavours:
+    /// a deterministic function of the case, so that small pools — fewer workers than Jacobian
+    /// columns — are exercised by every property, not only by C11); None = the global pool
+    fn pool_of(&self, _case: &Self::Case) -> Option<usize> {
+        None
+    }
     /// optional bounded-exhaustive scope: (description, cases)
     fn enumerate(&self, _tier: Tier) -> Option<(String, Box<dyn Iterator<Item = Self::Case> + Send>)> {
         None
@@ -179,7 +185,12 @@ pub fn catch<R>(f: impl FnOnce() -> R) -> Result<R, String> {
 /// strip line numbers/paths of the harness itself from a panic text so that signatures
 /// stay stable: keeps "file:line" of the first location only
 fn checked<P: Property>(p: &P, case: &P::Case) -> Check {
-    match catch(|| p.check(case)) {
+    // the panic message is captured on the thread that runs the check
+    let r = match p.pool_of(case) {
+        Some(n) => poison::pool(n).install(|| catch(|| p.check(case))),
+        None => catch(|| p.check(case)),
+    };
+    match r {
         Ok(r) => r,
         Err(text) => Err(Fail::new("panic", text)),
     }
